@@ -6,3 +6,6 @@ add("C01", "exploration", "runtime monitor: boundary send/receive history vs pre
 add("C02", "exploration", "runtime monitor: handler-return vs client-outcome oracle over generated status/error scripts, reference-transport calibration, GC-pressure schedule",
     "The client's terminal result (status.Convert) is compared with the handler's return value for ~1.2k (quick) generated scripts per run covering 20 codes, hostile messages, details, plain/context/EOF errors at every response position, plus lost (undecodable/unencodable) responses and a deterministic GC schedule; held on those executions.",
     "Expected statuses are those the standard transport delivers (calibrated per script); status messages compared modulo U+FFFD sanitising; known finding F-C02-1 (unary HTTP status message in a header) is matched by signature.", "DESIGN.md 4/C02")
+add("C14", "exploration", "runtime monitor: exhaustive code x context x deadline x renderer matrix through the real server and client, compared with the documented table parsed at run time",
+    "Every cell of the finite matrix (20 codes x request-cancelled x RPC-deadline-expired x 3 renderers) is executed through httpgrpc.Server.ServeHTTP and the recorded reply is decoded by httpgrpc.Channel; all HTTP statuses 100..599 without the status header and random contradicting headers are fed to the client. The matrix is exhaustive; codes outside it are sampled.",
+    "The documented table is read from the doc comment of DefaultErrorRenderer in /repo at run time; ServeHTTP is driven with an httptest recorder (no sockets).", "DESIGN.md 4/C14")
